@@ -215,7 +215,16 @@ def rule_m2345(prog: Program, col: Collector) -> None:
     rets = list(ft.of_kind("return"))
     col.check(bool(rets) and all(r.value == info[0].term for r in rets), ref.where(), ref.short, "normalize_game returns that norm-info", construct="norminfo-return",
               necessity="the caller de-normalises with the returned info: it must be the info captured before the game was changed")
-    early = [r for r in rets if r.seq < max(m.seq for m in muts) or any(f[0] == "if" and not (len(f) > 4 and f[4] == "implied") for f in r.ctx)]
+    def _explicit(r):
+        return [f for f in r.ctx if f[0] == "if" and not (len(f) > 4 and f[4] == "implied")]
+
+    def _after_dispatch(r):
+        """The return follows a normaliser call under the same guards (a branch of the dispatch that returns by itself), or follows the
+        whole dispatch outside every explicit guard."""
+        if any(m.seq < r.seq and len(m.ctx) <= len(r.ctx) and r.ctx[:len(m.ctx)] == m.ctx and any(f[0] == "if" for f in m.ctx) for m in muts):
+            return True
+        return r.seq > max(m.seq for m in muts) and not _explicit(r)
+    early = [r for r in rets if not _after_dispatch(r)]
     col.check(not early, ref.where(early[0].node if early else None), ref.short,
               "normalize_game returns only after the type dispatch, on every path (no shortcut that leaves the game as it is)", construct="normalise-shortcut",
               necessity="`already normalised` cannot be read off the surplus alone: a game with surplus exactly 1 and non-zero singletons (the registered K-budget family with "
